@@ -71,6 +71,8 @@ def check(ctx: Ctx) -> None:
     check_gmd_bookkeeping(ctx)
     from ..idioms import check_mean_counts
     check_mean_counts(ctx, 'C20.g', [MISC, PROJ], floor=20)
+    from ..idioms import check_no_alias_inplace
+    check_no_alias_inplace(ctx, 'C20.h', [PROJ], floor=5)
 
 
 def _mat(ctx: Ctx, it: X.MatInterp, fn, args, what: str) -> X.Val:
